@@ -119,6 +119,9 @@ func (pb *patternBuilder) getPatternItem() error {
 		}
 		switch {
 		case c == 'f':
+			if pb.i >= len(pb.ptn) || pb.ptn[pb.i] != '[' {
+				return errMissingFrontierSet
+			}
 			s, err := pb.getCharClass()
 			if err == nil {
 				pb.emit(patternItem{s, ptnFrontier})
